@@ -155,3 +155,119 @@ Section History.
       apply (ni_rd _ _ _ history_inv) in E. unfold imports in H. tauto.
   Qed.
 End History.
+
+(** * The executable specification [spec_canonical] computes the canonical name *)
+Lemma higher_versions m b : higher m b = true -> exists vm vb, version_of m = Some vm /\ version_of b = Some vb /\ version_gt vm vb = true.
+Proof. unfold higher. destruct (version_of m) as [vm|], (version_of b) as [vb|]; try discriminate. eauto. Qed.
+Lemma version_gt_trans a b c : version_gt a b = true -> version_gt b c = true -> version_gt a c = true.
+Proof.
+  unfold version_gt. pose proof cmp_version_total as T.
+  destruct (cmp_version a b) eqn:E1; try discriminate. destruct (cmp_version b c) eqn:E2; try discriminate. intros _ _.
+  apply (total_gt_lt _ T) in E1, E2. pose proof (tc_trans _ T _ _ _ E2 E1) as E3.
+  apply (total_gt_lt _ T) in E3. now rewrite E3.
+Qed.
+Lemma higher_trans a b c : higher a b = true -> higher b c = true -> higher a c = true.
+Proof.
+  intros H1 H2. apply higher_versions in H1 as [va [vb [Ea [Eb G1]]]]. apply higher_versions in H2 as [vb' [vc [Eb' [Ec G2]]]].
+  unfold higher. rewrite Ea, Ec. assert (vb' = vb) by congruence. subst vb'. eapply version_gt_trans; eauto.
+Qed.
+Lemma higher_trans_neg a b c : higher a b = false -> higher c b = true -> higher a c = false.
+Proof.
+  intros H1 H2. apply higher_versions in H2 as [vc [vb [Ec [Eb G]]]]. unfold higher in *. rewrite Eb in H1. rewrite Ec.
+  destruct (version_of a) as [va|]; auto. eapply not_gt_trans; eauto.
+Qed.
+
+Section SpecCanonical.
+  Variable n : str.
+  Let f (best m : str) : str := if same_track n m && higher m best then m else best.
+
+  Lemma spec_fold_inv : forall l best,
+    let c := fold_left f l best in
+    (c = best \/ (In c l /\ same_track n c = true /\ higher c best = true)) /\
+    (forall m, In m l -> same_track n m = true -> higher m c = false) /\
+    (forall x, higher x best = false -> higher x c = false).
+  Proof.
+    induction l as [|m r IH]; intros best; cbn [fold_left].
+    - split; [now left|]. split; [intros ? []|auto].
+    - destruct (IH (f best m)) as [A [B C]]. set (c := fold_left f r (f best m)) in *.
+      assert (Hdom : forall x, higher x best = false -> higher x (f best m) = false).
+      { intros x Hx. unfold f. destruct (same_track n m && higher m best) eqn:E; auto.
+        apply andb_true_iff in E as [_ E]. eapply higher_trans_neg; eauto. }
+      split; [|split].
+      + destruct A as [A|[A1 [A2 A3]]].
+        * unfold f in A. destruct (same_track n m && higher m best) eqn:E; [|now left].
+          apply andb_true_iff in E as [E1 E2]. right. rewrite A. cbn [In]. auto.
+        * right. split; [now right|]. split; auto. unfold f in A3.
+          destruct (same_track n m && higher m best) eqn:E; auto. apply andb_true_iff in E as [_ E]. eapply higher_trans; eauto.
+      + intros m' [<-|Hm'] Ht; [|now apply B]. apply C. unfold f. rewrite Ht. cbn [andb].
+        destruct (higher m best) eqn:E; [apply higher_irrefl|exact E].
+      + intros x Hx. apply C. now apply Hdom.
+  Qed.
+
+  Lemma spec_canonical_props names :
+    let c := spec_canonical names n in
+    (c = n \/ (In c names /\ same_track n c = true)) /\
+    (forall m, In m names -> same_track n m = true -> higher m c = false).
+  Proof.
+    destruct (spec_fold_inv names n) as [A [B _]]. unfold spec_canonical. fold f. split; auto.
+    destruct A as [A|[A1 [A2 _]]]; auto.
+  Qed.
+End SpecCanonical.
+
+Lemma same_track_version_inj a b : same_track a b = true -> version_of a = version_of b -> a = b.
+Proof.
+  unfold same_track, version_of. destruct (name_track a) as [[[ba ta] va]|] eqn:A; [|discriminate].
+  destruct (name_track b) as [[[bb tb] vb]|] eqn:B; [|discriminate]. intros H E. injection E as ->.
+  apply andb_true_iff in H as [H _]. apply str_eqb_eq in H. subst bb.
+  apply name_track_shape in A as [ra [-> [_ [Pa _]]]]. apply name_track_shape in B as [rb [-> [_ [Pb _]]]].
+  now rewrite (parse_version_inj _ _ _ Pa Pb).
+Qed.
+Lemma same_track_refl_of a b : same_track a b = true -> same_track a a = true.
+Proof.
+  unfold same_track. destruct (name_track a) as [[[ba ta] va]|]; [|discriminate]. intros _.
+  rewrite str_eqb_refl. cbn [andb]. now apply track_eqb_eq.
+Qed.
+Lemma higher_false_both a b va vb :
+  version_of a = Some va -> version_of b = Some vb -> higher a b = false -> higher b a = false -> va = vb.
+Proof.
+  unfold higher. intros -> ->. unfold version_gt. pose proof cmp_version_total as T. rewrite (tc_anti _ T vb va).
+  destruct (cmp_version vb va) eqn:E; cbn [CompOpp]; try discriminate. intros _ _. symmetry. now apply (tc_eq _ T).
+Qed.
+
+Lemma same_track_version a b : same_track a b = true -> exists vb, version_of b = Some vb.
+Proof.
+  unfold same_track, version_of. destruct (name_track a) as [[[ba ta] va]|]; [|discriminate].
+  destruct (name_track b) as [[[bb tb] vb]|]; [|discriminate]. eauto.
+Qed.
+
+Section History2.
+  Variable ord : list (str * id) -> list (str * id).
+  Variables (cf fuel : nat) (tag : N).
+  Variable l : list (str * (types * kind)).
+  Variables (a : agg) (s : st).
+  Hypothesis OFl : Forall (fun c : str * (types * kind) => owner_free (fst (snd c))) l.
+  Hypothesis Hrun : aggregate_all ord cf fuel (agg0 tag) st0 l 0 = inl (a, s).
+
+  (** the canonical name is the one the executable specification computes from the list of contributed names *)
+  Theorem history_canonical_is_spec n : In n (map fst l) -> Aggregator.canonical a n = spec_canonical (map fst l) n.
+  Proof.
+    intros Hn. destruct (history_canonical_is_highest ord cf fuel tag l a s OFl Hrun n Hn) as [H1 [H2 [H3 _]]].
+    destruct (spec_canonical_props n (map fst l)) as [A B].
+    set (c1 := Aggregator.canonical a n) in *. set (c2 := spec_canonical (map fst l) n) in *.
+    unfold compat_spec_b in H2. apply orb_true_iff in H2.
+    destruct (same_track n n) eqn:Tn.
+    - assert (T1 : same_track n c1 = true) by (destruct H2 as [E|E]; auto; apply str_eqb_eq in E; now rewrite <- E).
+      assert (T2 : same_track n c2 = true) by (destruct A as [->|[_ E]]; auto).
+      assert (I2 : In c2 (map fst l)) by (destruct A as [->|[E _]]; auto).
+      pose proof (B c1 H1 T1) as G12.
+      assert (G21 : higher c2 c1 = false) by (apply H3; auto; unfold compat_spec_b; rewrite T2; apply orb_true_r).
+      destruct (same_track_version _ _ T1) as [v1 V1]. destruct (same_track_version _ _ T2) as [v2 V2].
+      pose proof (higher_false_both _ _ _ _ V1 V2 G12 G21) as ->.
+      apply same_track_version_inj; [|congruence].
+      rewrite same_track_sym in T1. apply (same_track_trans _ _ _ T1 T2).
+    - assert (forall x, same_track n x = false).
+      { intros x. destruct (same_track n x) eqn:E; auto. apply same_track_refl_of in E. congruence. }
+      destruct H2 as [E|E]; [|rewrite H in E; discriminate]. apply str_eqb_eq in E.
+      destruct A as [->|[_ E2]]; [now symmetry|]. rewrite H in E2. discriminate.
+  Qed.
+End History2.
